@@ -72,7 +72,13 @@ def run(tier, seed):
     rep = common.pmap(wave.kernel_job, J, chunksize=1)
     float_lemmas(rep)
     rep.merge(common.pmap(wsim.boundary_job, wsim.boundary_jobs(), chunksize=4))
-    rep.merge(common.pmap(wsim.e2e_job, wsim.e2e_jobs(tier, seed, {'BOOL'}), chunksize=1))
+    E = wsim.e2e_jobs(tier, seed, {'BOOL'})
+    # per-line capacities with stripped forks: a captured fork branch shares memory AND capacity with its (larger) stem; four transitions overflow a capacity of 4
+    for cls in ('cpu', 'gpu'):
+        for st in (('RRRR0', 'RFRF1') if tier == 'thorough' else ('RRRR0',)):
+            E.append((wsim.E6.to_json(), cls, ('stem', 8, 4), st, ('BOOL',), (('strip_forks', True),)))
+    rep.merge(common.pmap(wsim.e2e_job, E, chunksize=1))
+    rep.merge(common.pmap(wsim.glue_job, wsim.glue_jobs(tier, seed), chunksize=4))          # schedule / memory-map obligations the induction relies on
     # reachability twin: the lemma machinery must reject a wrong expectation (AND2 checked against the OR2 function)
     orig = wave.lut_fn
     wave.lut_fn = lambda n: orig('OR2')
@@ -97,6 +103,6 @@ def run(tier, seed):
 
 
 def replay(data):
-    if data.get('mode') in ('boundary', 'e2e'): return wsim.replay(data)
+    if data.get('mode') in ('boundary', 'e2e', 'glue'): return wsim.replay(data)
     prob = wave.concrete_lemma(data)
     return bool(prob), str(prob)
